@@ -148,6 +148,24 @@ Definition run_sig_cross (signer : string) (kb : bytes) (c : bool) (msg : bytes)
                 end))
        (if produce_valid signer kb aux then "OK:1;" +++ show_bytes (sec1_encode c (pubkey_fast (be_Z kb))) else "ERR") "-".
 
+(* digest signing -> (compact round trip) -> recovery from the same digest and verify_hashbuf.  Every entry point reads the
+   32-byte digest as an integer REDUCED modulo n, so digests at and above n (n, n+1, 2^256-1) and 0, 1, n-1 behave alike:
+   the signer's key in the signer's form, and the signature verifies. *)
+Definition run_digest_cross (kb : bytes) (c : bool) (digest : bytes) (route : string) : string :=
+  out3 (render (do k <- key_of kb c;
+                do sg <- sign_digest_with_deterministic_k FP k digest;
+                do obj <- (if String.eqb route "mem" then Ok sg else from_compact_impl (to_compact_bytes sg None));
+                let pk := to_public_key FP k in
+                do v <- vres (verify_hashbuf FP digest pk obj);
+                match get_public_key_from_digest FP obj digest with
+                | Ok q => Ok (bit (bytes_eqb (pk_point q) (pk_point pk)) +++ ";" +++ show_bytes (pk_point q) +++ ";" +++ v)
+                | Err => Ok ("0;E;" +++ v)
+                | Panic => Panic
+                end))
+       (if valid_key kb && Nat.eqb (length digest) 32 then
+          "OK:1;" +++ show_bytes (sec1_encode c (pubkey_fast (be_Z kb))) +++ ";1"
+        else "ERR") "-".
+
 (* "n" -> None, "<recid><c>" -> Some info *)
 Definition info_of (s : string) : option (option recinfo) :=
   match s with
@@ -269,6 +287,12 @@ Definition run (op : string) (args : list string) : string :=
           if is_signer sn && (String.eqb route "mem" || String.eqb route "cmp") && (String.eqb entry "m" || String.eqb entry "d")
           then run_sig_cross sn kb cb mb hh rkb ab route entry else "BADARG"
       | _, _, _, _, _, _ => "BADARG"
+      end
+  | "sig.digest_cross", [k; c; d; route] =>
+      match expand k, flag_of c, expand d with
+      | Some kb, Some cb, Some db =>
+          if String.eqb route "mem" || String.eqb route "cmp" then run_digest_cross kb cb db route else "BADARG"
+      | _, _, _ => "BADARG"
       end
   | "sig.compact_der", [d; i] =>
       match expand d, info_of i with Some db, Some info => run_compact_der db info | _, _ => "BADARG" end
